@@ -369,7 +369,7 @@ def gen_struct(r, name, enums, fixed_structs, bits_types, allow_dynamic=True, nf
             pos += esz * count
         elif kind == "anon":
             nbytes = r.choice([1, 2, 4])
-            bt = gen_bits(r, name + "Anon%d" % fi[0], enums, nbytes * 8, attrs=False)
+            bt = gen_bits(r, name + "Anon%d" % fi[0], enums, nbytes * 8, attrs=r.random() < 0.35)
             for g in bt.fields:
                 g.name = fname("q")
             fields.append(Field(fname("anon"), ("struct", bt), pos, nbytes, anonymous_bits=bt, cond=cond))
@@ -449,6 +449,7 @@ class Built:
         self.emitted_paths = set()     # paths of leaves whose text must be present
         self.tree = None
         self.flags = set()             # narrow predicates of known findings that hold for this buffer
+        self.anon_skip_names = set()   # names of anonymous-bits subfields marked Skip (top level of this struct)
 
 
 def put_bits(buf, byte_off, nbytes, order, raw):
@@ -560,6 +561,11 @@ def build_struct(r, st, default_order, base, emitted, path, built, size_out=None
             vals = {}
             raw, sub, full = build_bits_value(r, bt, emitted, path, built, vals)
             values.update(vals)
+            if emitted:
+                for g in bt.fields:
+                    if g.attr == "Skip":
+                        built.flags.add("skip-on-anonymous-bits-subfield-ignored")
+                        built.anon_skip_names.add(g.name)
             put_bits(built.buf, base + f.offset, f.size, default_order, raw)
             for i in range(f.size):
                 if emitted:
